@@ -233,7 +233,7 @@ example : lastOf 3 [(3, [1, 2]), (4, [9]), (3, [7])] = some ([7] : List UInt8) :
 theorem decode_of {b : Bytes} {d : Dump} (hd : readDump b = .ok d)
     {t : Except Err (List Thread)} {mo : Except Err (List Module)} {m5 m9 : Except Err (List Region)}
     {mi : Except Err (List MemInfo)} {tn : Except Err (List (Nat × List Nat))} {un : Except Err (List UnloadedModule)}
-    {x : Except Err Exception} {sy : Except Err RSysInfo} {mc : Except Err MiscInfo}
+    {x : Except Err Exception} {sy : Except Err RSysInfo} {mc : Except Err MiscInfo} {hn : Except Err (List Handle)}
     (h1 : streamRes d b ST_THREAD_LIST (fun s => readThreadList MemSizes.default s b d.endian) = .ok t)
     (h2 : streamRes d b ST_MODULE_LIST (fun s => readModuleList MemSizes.default s b d.endian) = .ok mo)
     (h3 : streamRes d b ST_MEMORY_LIST (fun s => readMemoryList MemSizes.default s b d.endian) = .ok m5)
@@ -243,7 +243,8 @@ theorem decode_of {b : Bytes} {d : Dump} (hd : readDump b = .ok d)
     (h7 : streamRes d b ST_UNLOADED_MODULE_LIST (fun s => readUnloadedModuleList MemSizes.default s b d.endian) = .ok un)
     (h8 : streamRes d b ST_EXCEPTION (fun s => readException s b d.endian) = .ok x)
     (h9 : streamRes d b ST_SYSTEM_INFO (fun s => readSystemInfo s b d.endian) = .ok sy)
-    (h10 : streamRes d b ST_MISC_INFO (fun s => readMiscInfo s d.endian) = .ok mc) :
+    (h10 : streamRes d b ST_MISC_INFO (fun s => readMiscInfo s d.endian) = .ok mc)
+    (h11 : streamRes d b ST_HANDLE_DATA_STREAM (fun s => readHandleData MemSizes.default s b d.endian) = .ok hn) :
     decode b = .ok
       { endian := d.endian, flags := d.header.flags,
         threads := t.map (fun l => l.map (rthreadOf b)),
@@ -254,8 +255,9 @@ theorem decode_of {b : Bytes} {d : Dump} (hd : readDump b = .ok d)
         unloaded := un.map (fun l => l.map munloadedOf),
         exception := x.map (rexceptionOf b),
         sysInfo := sy,
-        miscInfo := mc } := by
-  simp only [decode, hd, h1, h2, h3, h4, h5, h6, h7, h8, h9, h10, Res.bind]
+        miscInfo := mc,
+        handles := hn.map (fun l => l.map rhandleOf) } := by
+  simp only [decode, hd, h1, h2, h3, h4, h5, h6, h7, h8, h9, h10, h11, Res.bind]
 
 /-- **C02.3 `decode_encode`** — for every well-formed model (lists of any length, any field values
     that fit the wire widths, names/CSD strings of arbitrary Unicode scalar values, all four
@@ -269,7 +271,10 @@ theorem decode_of {b : Bytes} {d : Dump} (hd : readDump b = .ok d)
     bytes; `StreamNotFound` when the model has none) and SYSTEM INFO (all scalar fields, the 24 CPU
     bytes, the CSD-version string; `StreamNotFound` when the model has none) and MISC INFO (the
     revision 1..5 the stream's length selects — bytes after the struct are ignored — and every
-    scalar of that revision, flag-guarded or not; `StreamNotFound` when the model has none). -/
+    scalar of that revision, flag-guarded or not; `StreamNotFound` when the model has none) and the
+    HANDLE DATA stream (descriptors of either kind in file order: all scalar fields, the two
+    optional names, and — second kind — the object-information chain; `StreamNotFound` when the
+    model has none). -/
 theorem decode_encode {m : DumpModel} {f : MemForm} (wf : WellFormed m f) (e : Endian) :
     decode (encode m e f) = .ok (report m e f) := by
   have hd := readDump_encode wf e
@@ -358,6 +363,25 @@ theorem decode_encode {m : DumpModel} {f : MemForm} (wf : WellFormed m f) (e : E
       have := streamRes_ok (d := d) (reader := fun s => readMiscInfo s e)
         (getRawStream_encode wf e ST_MISC_INFO _ (core_miscInfo m e f hs) d rfl) hr
       simpa [report, hs] using this
+  -- handle data
+  have h11 : ∃ x, streamRes d (encode m e f) ST_HANDLE_DATA_STREAM
+      (fun s => readHandleData MemSizes.default s (encode m e f) e) = .ok x ∧
+      x.map (fun l => l.map rhandleOf) = (report m e f).handles := by
+    cases hs : m.handles with
+    | none =>
+      refine ⟨_, streamRes_notFound (getRawStream_encode_none wf e ST_HANDLE_DATA_STREAM (no_handles m f hs) d rfl), ?_⟩
+      simp [report, hs, Except.map]
+    | some x =>
+      have hoob : Has (encode m e f).toList (oobOffsets m f).handles (oobHandles e x.v2 (oobOffsets m f).handles x.handles) := by
+        have := hpl.handles; simpa [handlesOob, hs] using this
+      have hpos : 0 < (oobOffsets m f).handles := by simp only [oobOffsets]; omega
+      obtain ⟨r, hr1, hr2⟩ := readHandleData_enc MemSizes.default
+        (s := (encHandleData e (oobOffsets m f).handles x).toArray) (all := encode m e f) (e := e)
+        (off := (oobOffsets m f).handles) (x := x) (by simp) (wf.handles x hs) hpos hoob hall
+        (by simpa using (core_stream_small wf e (core_handles m e f hs)).1)
+      refine ⟨_, streamRes_ok (getRawStream_encode wf e ST_HANDLE_DATA_STREAM _ (core_handles m e f hs) d rfl) hr1, ?_⟩
+      simp [report, hs, Except.map, hr2]
+  obtain ⟨hnr, h11, hn2⟩ := h11
   -- memory, by form
   cases f with
   | mem =>
@@ -369,8 +393,8 @@ theorem decode_encode {m : DumpModel} {f : MemForm} (wf : WellFormed m f) (e : E
       (getRawStream_encode wf e ST_MEMORY_LIST _ (core_memory m e) d rfl) hr1
     have h4 := streamRes_notFound (d := d) (reader := fun s => readMemory64List MemSizes.default s (encode m e .mem) e)
       (getRawStream_encode_none wf e ST_MEMORY64_LIST (no_memory64_in_mem m) d rfl)
-    rw [decode_of hd h1 h2 h3 h4 h5 h6 h7 h8 h9 h10]
-    simp only [hx2]
+    rw [decode_of hd h1 h2 h3 h4 h5 h6 h7 h8 h9 h10 h11]
+    simp only [hx2, hn2]
     simp only [Except.map, pickMemory, ht2, hm2, hr2, hi2, hu2]
     simp [report, hnobad, encHeaderVal]
   | mem64 =>
@@ -382,8 +406,8 @@ theorem decode_encode {m : DumpModel} {f : MemForm} (wf : WellFormed m f) (e : E
       (getRawStream_encode wf e ST_MEMORY64_LIST _ (core_memory64 m e) d rfl) hr1
     have h3 := streamRes_notFound (d := d) (reader := fun s => readMemoryList MemSizes.default s (encode m e .mem64) e)
       (getRawStream_encode_none wf e ST_MEMORY_LIST (no_memory_in_mem64 m) d rfl)
-    rw [decode_of hd h1 h2 h3 h4 h5 h6 h7 h8 h9 h10]
-    simp only [hx2]
+    rw [decode_of hd h1 h2 h3 h4 h5 h6 h7 h8 h9 h10 h11]
+    simp only [hx2, hn2]
     simp only [Except.map, pickMemory, ht2, hm2, hr2, hi2, hu2]
     simp [report, hnobad, encHeaderVal]
 
@@ -406,7 +430,9 @@ def exampleModel : DumpModel :=
     sysInfo := some ⟨9, 6, 0, 4, 1, 10, 0, 19041, 3, 0,
       [0, 1, 2, 3, 4, 5, 6, 7, 8, 9, 10, 11, 12, 13, 14, 15, 16, 17, 18, 19, 20, 21, 22, 23], [0x53, 0x1F600]⟩,
     extra := [(3, [0, 0])],
-    miscInfo := some ⟨2, [44, 7, 1234, 1, 2, 3, 3000, 2000, 3000, 1, 2], [0xee, 0xff]⟩ }
+    miscInfo := some ⟨2, [44, 7, 1234, 1, 2, 3, 3000, 2000, 3000, 1, 2], [0xee, 0xff]⟩,
+    handles := some ⟨true, [⟨0x44, some [0x46, 0x69, 0x6c, 0x65], none, 1, 2, 3, 4, [⟨1, 8⟩, ⟨9, 0⟩]⟩,
+                            ⟨0x48, none, some [0x1F600], 0, 0, 0, 0, []⟩]⟩ }
 
 theorem validName_of_all (cs : List Nat) (h : cs.all (fun c => decide (c < 0xD800 ∨ (0xE000 ≤ c ∧ c < 0x110000))) = true) :
     ValidName cs := by
@@ -416,7 +442,7 @@ theorem validName_of_all (cs : List Nat) (h : cs.all (fun c => decide (c < 0xD80
 
 example : WellFormed exampleModel .mem ∧ WellFormed exampleModel .mem64 := by
   constructor <;>
-  · refine ⟨by decide, by decide, ?_, ?_, ?_, ?_, ?_, ?_, ?_, ?_, ?_, ?_⟩
+  · refine ⟨by decide, by decide, ?_, ?_, ?_, ?_, ?_, ?_, ?_, ?_, ?_, ?_, ?_⟩
     · intro t ht
       simp only [exampleModel, List.mem_singleton] at ht
       subst ht
@@ -455,6 +481,18 @@ example : WellFormed exampleModel .mem ∧ WellFormed exampleModel .mem64 := by
       simp only [exampleModel, Option.some.injEq] at hx
       subst hx
       exact ⟨by decide, by decide, fits_of_fitsB (by decide), by decide⟩
+    · intro x hx h hh
+      simp only [exampleModel, Option.some.injEq] at hx
+      subst hx
+      simp only [List.mem_cons, List.not_mem_nil, or_false] at hh
+      rcases hh with rfl | rfl
+      · refine ⟨by decide, by decide, by decide, by decide, by decide, validName_of_all _ (by decide), trivial, ?_⟩
+        intro i hi
+        simp only [List.mem_cons, List.not_mem_nil, or_false] at hi
+        rcases hi with rfl | rfl <;> decide
+      · refine ⟨by decide, by decide, by decide, by decide, by decide, trivial, validName_of_all _ (by decide), ?_⟩
+        intro i hi
+        simp at hi
     · intro x hx
       simp only [exampleModel, List.mem_singleton] at hx
       subst hx
